@@ -571,7 +571,7 @@ impl Disk
             _ => dir.entries[e as usize].file_type = fimg.fs_type[0],
         } 
         dir.entries[e as usize].name = string_to_file_name(name);
-        dir.entries[e as usize].sectors = [tslist_sectors as u8 + data_sectors as u8 ,0];
+        dir.entries[e as usize].sectors = u16::to_le_bytes((tslist_sectors + data_sectors) as u16);
         self.write_sector(&dir.to_bytes(), ts, 0)?;
 
         // write the data and TS list as we go
@@ -810,9 +810,9 @@ impl super::DiskFS for Disk {
                         Self::verify_ts(&vconst,ts[0], ts[1])?;
                         self.read_sector(&mut buf,ts,0)?;
                         let bytes = match entry.file_type & 0x7f {
-                            1 | 2 => u16::from_le_bytes([buf[0],buf[1]]),
-                            4 => u16::from_le_bytes([buf[2],buf[3]]),
-                            _ => sectors*256
+                            1 | 2 => u16::from_le_bytes([buf[0],buf[1]]) as usize,
+                            4 => u16::from_le_bytes([buf[2],buf[3]]) as usize,
+                            _ => sectors as usize*256
                         };
                         tree["files"][&name]["meta"] = json::JsonValue::new_object();
                         let meta = &mut tree["files"][&name]["meta"];
